@@ -240,6 +240,22 @@ Proof.
   exact (fun mm fuel HY Hp => terminates_m_nocache_ok K isinf f cb pones pdotL pdotR pvals pick pcoreG pfacR erank
                                 accuracy accdata C HY Hp mm fuel).
 Qed.
+(* ---------------------------------------------------------------------------------------------- known finding *)
+(* C06/zero-objective-e-only-never-stops, on the model: with e as the ONLY stop argument (no budget, nswp, e_vld,
+   callback, cache), an objective that always answers and an accuracy value that never meets the criterion at any sweep
+   - the case of an identically zero objective, for which accuracy(Y, Yold) is the sentinel -1 (0/0) and _info_appr
+   requires info.e >= 0 - no documented stop reason can fire: the run never returns, for every fuel.  (That accuracy
+   really answers -1 on the zero tensor is a numeric fact shown on the implementation by the search, not here.) *)
+Theorem C06_e_only_never_returns : forall fuel s,
+  Y0_ok pones C -> pick_ok pick ->
+  m_max C = None -> c_nswp C = None -> c_evld C = None -> cb = None -> c_cache C = None ->
+  (forall k I, f k I <> None) ->
+  (forall k Y Yo, hit K isinf (accuracy k Y Yo) (c_e C) = false) -> hit K isinf (minus1 K) (c_e C) = false ->
+  crossm fuel <> Ok s.
+Proof.
+  exact (fun fuel s HY Hp => e_only_never_returns K isinf f cb pones pdotL pdotR pvals pick pcoreG pfacR erank
+                               accuracy accdata C HY Hp fuel s).
+Qed.
 End C06.
 
 (* ---------------------------------------------------------------------------------------------- non-vacuity *)
@@ -260,6 +276,14 @@ Proof. vm_compute. split; reflexivity. Qed.
    "m" with m = 28 <= 30; budget 30 with an empty cache -> all 12 entries evaluated once, then "conv";
    nswp = 0 -> one batch is evaluated before the run returns (the quirk recorded in DESIGN section 6);
    fuel 0 is not enough for it *)
+(* the known finding on a concrete instance: e = 1 only, zero objective, accuracy = -1: out of fuel for 0, 1, 5, 40 sweeps;
+   the hypotheses of C06_e_only_never_returns hold for it (so it is out of fuel for every fuel) *)
+Example C06_ex_e_only_zero_cycle :
+  cross_zero_e_only 0 = Err OutOfFuel /\ cross_zero_e_only 1 = Err OutOfFuel /\
+  cross_zero_e_only 5 = Err OutOfFuel /\ cross_zero_e_only 40 = Err OutOfFuel /\
+  hit OZ (fun _ => false) (-1)%Z (Some 1%Z) = false.
+Proof. vm_compute. repeat split. Qed.
+
 Example C06_ex_runs :
   summary (cross_ex None (Some 2) None 3) = Some (5, 94, 0, 2, 12) /\
   summary (cross_ex (Some 30) None None 31) = Some (1, 28, 0, 0, 4) /\
